@@ -66,9 +66,8 @@ func main() {
 		Overlay: cfgOverlay,
 	}
 	patterns := []string{"./pkg/..."}
-	if *maporder {
-		patterns = append(patterns, "github.com/huleTW/bad-smell-analysis/graphcall")
-	}
+	// third-party packages on the path of reported values (graphcall) live in another module and cannot
+	// import the virtual runtime package; their map ranges stay with the Go runtime (DESIGN.md 6)
 	pkgs, err := packages.Load(cfg, patterns...)
 	must(err)
 	nerr := 0
